@@ -253,7 +253,7 @@ pub fn run(rep: &mut Report, rng: &mut Rng, thorough: bool) {
                 let d = json!({"decoder": "xz", "file": f.name, "multi": multi, "crc_fixup": which == 0, "input_hex": if m.len() <= 400 { hex(&m) } else { format!("fnv:{}", fnv(&m)) }, "case": i});
                 judge(rep, "xz", &v, xz_declared_dict(&m), m.len(), d.clone());
                 if m.len() <= 3000 {
-                    rep.model(model_req("xz", multi, &m, cap), crate::cont::expected("xz", multi, &m, cap));
+                    crate::cont::model_case(rep, "xz", multi, &m, cap);
                 }
                 rep.case(format!("xz:{}:fix{}", f.name, which == 0), true, || d);
             }
@@ -299,7 +299,7 @@ pub fn run(rep: &mut Report, rng: &mut Rng, thorough: bool) {
                 let d = json!({"decoder": "lzip", "file": f.name, "input_hex": if m.len() <= 400 { hex(&m) } else { format!("fnv:{}", fnv(&m)) }, "case": i});
                 judge(rep, "lzip", &v, lzip_declared_dict(&m), m.len(), d.clone());
                 if m.len() <= 3000 {
-                    rep.model(model_req("lzip", false, &m, cap), crate::cont::expected("lzip", false, &m, cap));
+                    crate::cont::model_case(rep, "lzip", false, &m, cap);
                 }
                 // the backward member scan of LZIPReaderMT::new against the model scan (Guards.scanFile)
                 if m.len() <= 3000 {
@@ -562,7 +562,7 @@ pub fn run(rep: &mut Report, rng: &mut Rng, thorough: bool) {
                         judge(rep, "xz-header", &v, xz_declared_dict(&mm), mm.len(), d);
                         rep.evaluations += 1;
                         if hs % 8 == 0 {
-                            rep.model(model_req("xz", false, &mm, cap), crate::cont::expected("xz", false, &mm, cap));
+                            crate::cont::model_case(rep, "xz", false, &mm, cap);
                         }
                         hs += 4;
                     }
@@ -578,7 +578,7 @@ pub fn run(rep: &mut Report, rng: &mut Rng, thorough: bool) {
                 let v = run_case(|| xz_decompress(&m, r.chance(1, 2), &[4096], cap));
                 let d = json!({"decoder": "xz", "generated": "block-header", "input_hex": hex(&m), "case": i});
                 judge(rep, "xz-header", &v, xz_declared_dict(&m), m.len(), d.clone());
-                rep.model(model_req("xz", false, &m, cap), crate::cont::expected("xz", false, &m, cap));
+                crate::cont::model_case(rep, "xz", false, &m, cap);
                 rep.case("xz:generated-header".into(), true, || d);
             }
             _ => {
